@@ -75,7 +75,7 @@ class SimTopaz(object):
         if v is None:
             return rsp
         self.applied = v if isinstance(v, str) else v[0]
-        if v == "none":
+        if v in ("none", "xerr"):        # xerr: the frame is garbled (the fake clf raises TransmissionError)
             return None
         kind, arg = v
         if kind == "trunc":
